@@ -889,6 +889,12 @@ class Interp:
                 caps[c["d"]] = cell if c.get("byref") else Cell(copy.deepcopy(self.rv(cell)), c["n"])
         return Closure(fn, caps, this)
 
+    def e_new(self, e, fr):
+        # pointers to single objects are modelled by their pointee
+        if e.get("e") is None:
+            raise AnalysisBroken("interp: new without initialiser at %s" % fr.fn.loc(e))
+        return self.rv(self.eval(e["e"], fr))
+
     def e_throw(self, e, fr):
         raise ThrowEx(e, pp(e.get("e")), fr.fn.loc(e))
 
@@ -938,6 +944,13 @@ class Interp:
             return self.world.sym_unop("-", x)
         if op == "+":
             return x
+        if op == "~" and isinstance(x, int) and not isinstance(x, bool):
+            t = fr.fn.type(e.get("t"))
+            if t.startswith("unsigned") or t in ("size_t", "std::size_t") or "uint" in t:
+                bits = 64 if "long" in t or "64" in t or "size_t" in t else 8 if ("char" in t or "int8" in t) else \
+                    16 if ("short" in t or "16" in t) else 32
+                return (~x) % (1 << bits)
+            return ~x
         raise AnalysisBroken("interp: unary %s" % op)
 
     def wrap(self, fr, e, v):
@@ -1667,6 +1680,10 @@ class Interp:
                         if kv[0] not in c:
                             c[kv[0]] = kv[1]
                         return None
+        if e.get("obj") is not None and name in ("rbegin", "rend", "crbegin", "crend") and (cls or "").startswith("xt::") \
+                and isinstance(self.rv(OBJ()), PyVec):
+            o_ = self.rv(OBJ())
+            return Iter(o_, len(o_) if name in ("rbegin", "crbegin") else 0, -1)
         if e.get("obj") is not None and name in ("begin", "end", "cbegin", "cend") and \
                 ((cls or "").startswith("xt::") or (cls or "") in ("std::unordered_set", "std::set")):
             o_ = self.rv(OBJ())
